@@ -376,10 +376,10 @@ def _stmt_role(at):
 @rule("C09", "R5", "ORDER", "statistics and MRFs are fitted to the current labels: assigning labels re-derives membership at once")
 def r5(ctx):
     from . import c13
-    c13.r2(ctx)
+    ctx.sub(c13.r2)
 
 
 @rule("C09", "R6", "CMP", "repopulation only touches clusters with fewer than 2 points")
 def r6(ctx):
     from . import c08
-    c08.r2(ctx)
+    ctx.sub(c08.r2)
